@@ -114,10 +114,10 @@ def check_C01(rep):
     run = h1_stage(rep)
     if run is None: return rep
     # correspondence: generator observables + accept/reject verdicts
-    ncases = compare_tables(rep, run)
+    ncases = compare_tables(rep, run, select=lambda cid: "CONFLICT" not in run.real[cid]["diag"])
     nin = 0
     for cid, r in run.real.items():
-        m = run.model.get(cid)
+        m = run.model_rt.get(cid)
         if m is None: continue
         for k, (a, b) in enumerate(zip(r["inputs"], m["inputs"])):
             nin += 1
@@ -177,7 +177,7 @@ import oracles as O
 def each_input(run, select=lambda cid: True):
     for cid in sorted(run.real, key=int):
         if not select(cid): continue
-        r = run.real[cid]; m = run.model.get(cid)
+        r = run.real[cid]; m = run.model_rt.get(cid)
         if r["gen"] != "ok" or r["skipped"]: continue
         for j, inp in enumerate(run.gis[cid]["inputs"]):
             if j < len(r["inputs"]): yield cid, j, inp, r["inputs"][j], (m["inputs"][j] if m and j < len(m["inputs"]) else None)
@@ -221,7 +221,7 @@ def check_C11(rep):
     if run is None: return rep
     nontriv = 0; samples = []; d12 = []
     for cid in sorted(run.real, key=int):
-        r = run.real[cid]; m = run.model.get(cid)
+        r = run.real[cid]; m = run.model_rt.get(cid)
         if r["gen"] != "ok": continue
         rep.cov["evaluations"] += 1
         if m is None or r["diag"] != m["diag"]:
@@ -292,7 +292,25 @@ def check_C05(rep):
     common_stage(rep)
     run = h1_stage(rep)
     if run is None: return rep
-    compare_tables(rep, run, select=lambda cid: run.meta[cid]["prec"] or "CONFLICT" in run.real[cid]["diag"])
+    # correspondence: the cell logic of the mirror (scan_cell: the subject of the C05 theorems), re-run on the REAL item
+    # sets, reproduces every real cell whose result does not depend on the order of items (no completed root item)
+    for cid in sorted(run.real, key=int):
+        r = run.real[cid]; m = run.model_rt.get(cid)
+        if r["gen"] != "ok": continue
+        if m is None or len(m.get("cellrows", [])) != len(r["rows"]):
+            rep.tie_broken(f"correspondence H1/cell-logic: case {cid}: no recomputed cells for the real item sets"); continue
+        for s_, (row, crow) in enumerate(zip(r["rows"], m["cellrows"])):
+            for col, ((k, a, sr), cc) in enumerate(zip(row, crow)):
+                if cc == "-":
+                    if k != 0: rep.tie_broken(f"correspondence H1/cell-logic: case {cid} state {s_} col {col}: real cell {(k, a, sr)} but no item of the state belongs to this column")
+                    continue
+                mk, ma, msr, rootc = map(int, cc.split(","))
+                if rootc: continue
+                if mk == 5 or k == 5:          # R/R: whether the S/R flag was set before the loop stopped depends on the item order
+                    if mk != k: rep.tie_broken(f"correspondence H1/cell-logic: case {cid} state {s_} col {col}: real cell kind {k}, mirror {mk}")
+                    continue
+                if (k, sr) != (mk, msr) or (k == 4 and a != ma):
+                    rep.tie_broken(f"correspondence H1/cell-logic: case {cid} ({run.meta[cid]['name']}) state {s_} col {col}: real cell {(k, a, sr)} but the mirror's scan of the real items gives {(mk, ma, msr)}")
     nontriv = 0; samples = []
     for cid in sorted(run.real, key=int):
         r = run.real[cid]
@@ -680,7 +698,53 @@ def check_C12(rep):
     rep.cov["samples"] = samples
     return rep
 
-CHECKS = {"C17": check_C17, "C12": check_C12, "C03": check_C03, "C04": check_C04, "C01": check_C01, "C16": check_C16, "C11": check_C11, "C05": check_C05, "C09": check_C09, "C10": check_C10, "C13": check_C13, "C18": check_C18}
+def driver_reference_check(rep, run, select, nontrivial, rule, samples_of, what):
+    """shared by C02 and C08: every real result / message list / contextual log is compared with the documented behaviour
+    computed by oracles.reference_parse on the REAL table dump; the driver mirror is tied by trace equality on real tables"""
+    nontriv = set(); samples = []
+    for cid, j, inp, ri, mi in each_input(run, select):
+        rep.cov["evaluations"] += 1
+        base = ri["res"].split(" BUFFERFAULT")[0]
+        if mi is None or mi["res"] != base or mi["err"] != ri["err"] or mi["err2"] != ri["err2"]:
+            rep.tie_broken(f"correspondence H1/driver: case {cid} input {j} ({run.meta[cid]['name']}): result or trace of the real driver differs from the driver mirror run on the same (real) table")
+        else: rep.cov["traces_validated_against_impl"] += 1
+        if base == "LOOP": continue
+        want, msgs, ctx = O.reference_parse(run, cid, inp)
+        if want in ("UNDEFINED", "LOOP"): continue
+        vtxt, qtxt = verbose_and_quiet(inp, ri)
+        got_msgs = [f"[{l[0]}:{l[1]}] {l[2]}: {l[3]}" for l in O.parse_trace(qtxt)]
+        bad = None
+        if base != want: bad = "result"
+        elif [m.encode("latin1", "replace") for m in got_msgs] != [m.encode("latin1", "replace") for m in msgs]: bad = "messages"
+        if bad:
+            rep.fail(kind=what + "-" + bad + "-differs-from-documented-behaviour", case=cid, input=inp, grammar=run.meta[cid], expected=want[:300], observed=base[:300], expected_messages=msgs[:5], observed_messages=got_msgs[:5])
+        if nontrivial(cid, j, inp, ri, want, msgs):
+            nontriv.add((cid, j))
+            if len(samples) < 3: samples.append(samples_of(cid, j, inp, ri, want, msgs))
+    rep.cov["distinct_nontrivial"] = len(nontriv); rep.cov["rule"] = rule; rep.cov["samples"] = samples
+    return rep
+
+def check_C02(rep):
+    common_stage(rep)
+    run = h1_stage(rep)
+    if run is None: return rep
+    def nt(cid, j, inp, ri, want, msgs): return want.startswith("VALUE") and want.count("r") >= 3 and len(set(re.findall(r"r(\d+)\(", want))) >= 2
+    def so(cid, j, inp, ri, want, msgs): return {"grammar": run.meta[cid]["rules"], "bytes": inp["bytes"], "value": want[:200]}
+    return driver_reference_check(rep, run, lambda c: True, nt,
+        "all H1 inputs; the value returned by the real parse (functors build a term 'r<rule>(children...)' with leaves carrying lexeme and position, so a swapped, duplicated, missing or stale argument changes the value) is compared with the bottom-up evaluation of the derivation computed by a reference LR run on the real table dump; contextual functor calls are compared in C13. Non-trivial = distinct accepted (grammar, input) whose tree has >= 3 inner nodes of >= 2 distinct rules. Heterogeneous value types, default functors and helper functors are covered by the H3 programs.",
+        so, "value")
+
+def check_C08(rep):
+    common_stage(rep)
+    run = h1_stage(rep)
+    if run is None: return rep
+    def nt(cid, j, inp, ri, want, msgs): return any("Syntax error" in m for m in msgs) and (want.startswith("VALUE") or sum("Syntax error" in m for m in msgs) >= 2)
+    def so(cid, j, inp, ri, want, msgs): return {"grammar": run.meta[cid]["rules"], "bytes": inp["bytes"], "result": want[:160], "messages": msgs}
+    return driver_reference_check(rep, run, lambda c: run.uses_error(c), nt,
+        "grammars whose reachable rules use the error symbol (README recovery grammar, nested error rules, error as first symbol, a lone error rule, random grammars on the carriers with error slots); inputs: sentences with 1-3 token insertions/deletions/substitutions/junk bytes at every position, errors at the first token, at end of input and consecutively; the real result and message list are compared with the documented recovery algorithm executed by a reference on the real table dump. Non-trivial = distinct (grammar, input) that recovers to a value after an error, or reports two or more errors.",
+        so, "recovery")
+
+CHECKS = {"C02": check_C02, "C08": check_C08, "C17": check_C17, "C12": check_C12, "C03": check_C03, "C04": check_C04, "C01": check_C01, "C16": check_C16, "C11": check_C11, "C05": check_C05, "C09": check_C09, "C10": check_C10, "C13": check_C13, "C18": check_C18}
 
 def run_check(pid, tier, seed):
     rep = Report(pid, tier, seed)
